@@ -1,0 +1,23 @@
+//go:build verif
+
+package apk
+
+// Accessors for the verification harness (build tag verif only).
+
+// VerifVersionFields exposes the parsed fields of a Version.
+func VerifVersionFields(v Version) (numbers []int, letter rune, pre, preN, post, postN, rev int) {
+	return v.numbers, v.letter, int(v.preSuffix), v.preSuffixNumber, int(v.postSuffix), v.postSuffixNumber, v.revision
+}
+
+// VerifConstraintFields exposes the parts of a ParsedConstraint.
+func VerifConstraintFields(p ParsedConstraint) (name, version, pin string, dep int) {
+	return p.Name, p.version, p.pin, int(p.dep)
+}
+
+// VerifSatisfies exposes versionDependency.satisfies.
+func VerifSatisfies(dep int, actual, required Version) bool {
+	return versionDependency(dep).satisfies(actual, required)
+}
+
+// VerifIncludesVersion exposes includesVersion.
+func VerifIncludesVersion(actual, required Version) bool { return includesVersion(actual, required) }
